@@ -345,12 +345,15 @@ def profile(ctx_thorough):
 @st.composite
 def cases(draw, thorough):
     model = draw(lintgen.file_model('kx', profile(thorough)))
+    has_ne = any(d['rel'] == 'ne' for r, _ in lintgen.all_routines(model) for a in ('x', 'z', 'y')
+                 for d in r['ub'][a].get('dims', []))
     return {
         'model': model,
         'inputs': draw(lintgen.inputs()),
         'rule_order': draw(st.sampled_from([0, 0, 1])),
-        # the actual arrays are larger than n in the first dimension (checks of the form ubound < n still pass)
-        'extra': draw(st.sampled_from([0] * 12 + [1])),
+        # the actual arrays are larger than n in the first dimension (checks of the form ubound < n still pass,
+        # checks of the form ubound /= n would not)
+        'extra': draw(st.sampled_from([0] * 12 + [1])) if not has_ne else 0,
         'suffix': draw(st.sampled_from(['.F90', '.f90'])),
     }
 
@@ -461,6 +464,31 @@ def enclosing_units(text):
     return where
 
 
+def _mentions_ubound(tree, arr):
+    if isinstance(tree, list):
+        if len(tree) >= 2 and tree[0] == 'ubound' and tree[1] == arr:
+            return True
+        return any(_mentions_ubound(t, arr) for t in tree)
+    if isinstance(tree, dict):
+        return any(_mentions_ubound(t, arr) for t in tree.values())
+    return False
+
+
+def _if_conditions(body):
+    """conditions of IF constructs / statements (loki Conditional nodes) in a statement list, recursively"""
+    for s in body:
+        if s['k'] == 'if1':
+            yield s['c']
+        elif s['k'] == 'if':
+            for br in s['br']:
+                yield br['c']
+                yield from _if_conditions(br['b'])
+            if s['else']:
+                yield from _if_conditions(s['else'])
+        elif s['k'] in ('do', 'dowhile'):
+            yield from _if_conditions(s['b'])
+
+
 def ground_truth(case):
     """what the original file contains, from the model"""
     model = case['model']
@@ -478,6 +506,8 @@ def ground_truth(case):
                     flags.add('bound-smaller')
                 if any(d['rel'] == 'ne' for d in sp['dims']):
                     flags.add('rel-ne')
+                if any(_mentions_ubound(c, a) for c in _if_conditions(r['body'])):
+                    flags.add('ordinary-condition-mentions-ubound')
     return text, rc, fixed_dummies, flags
 
 
@@ -536,6 +566,9 @@ def _check(case, ctx, work):
         f.write(text)
 
     def fail(sig, detail):
+        if 'ordinary-condition-mentions-ubound' in flags and sig.split(':')[1] in ('text', 'behaviour', 'string-literal', 'comment'):
+            # one root cause: the UBOUND rule takes any IF whose condition mentions ubound(<checked dummy>, d) for the check
+            sig = 'C43:ubound-fix:ordinary-conditional-mentioning-ubound-treated-as-check'
         ctx.fail(sig, case, detail)
 
     items, exc, stage = run_lint(path, case, fix=True)
@@ -673,8 +706,8 @@ def _drop_blocks(text, codes):
                 j = i
                 while not lines[j].strip().lower().replace(' ', '') == 'endif':
                     j += 1
-                m = [re.search(r'stop (\d+)$', x.strip().lower()) for x in lines[i:j + 1]]
-                code = next(int(x.group(1)) for x in m if x)
+                m = [re.search(r'^stop (\d+)$', x.strip().lower()) for x in lines[i:j + 1]]
+                code = next((int(x.group(1)) for x in m if x), None)   # None: an ordinary conditional that mentions ubound
                 if code in codes:
                     i = j + 1
                     continue
